@@ -140,6 +140,15 @@ func c20Exec(c *fw.Ctx, hist []string) bool {
 				variant, pin = "same", "46637726"
 			}
 			b.CloseKeepNoWait()
+			lost := false
+			if variant == "lost-version-files" {
+				// the files "version" and "configHash" are gone (a first run that was killed right after it stored the
+				// id, or a storage written by something that never stored them); what the configuration number then is,
+				// is not judged — identity, pairings and discoverability are
+				variant, lost = "same", true
+				os.Remove(filepath.Join(dir, "version"))
+				os.Remove(filepath.Join(dir, "configHash"))
+			}
 			v := variant
 			if v == "same" {
 				v = ""
@@ -158,6 +167,9 @@ func c20Exec(c *fw.Ctx, hist []string) bool {
 				m.version++
 			}
 			m.variant = structure
+			if lost {
+				fmt.Sscan(b.W.T.VerifTxtRecords()["c#"], &m.version)
+			}
 			// every stored controller can still verify against the same accessory key
 			for n := range m.pairings {
 				k := verified(m.controllers[n])
@@ -167,8 +179,14 @@ func c20Exec(c *fw.Ctx, hist []string) bool {
 				k.Close()
 				break
 			}
-		case ev == "pair":
+		case ev == "pair", ev == "pair-empty-id":
 			id := refctl.NewIdentity(fmt.Sprintf("CTL-%d", m.nextCtl), fmt.Sprintf("c20-%d", m.nextCtl))
+			if ev == "pair-empty-id" {
+				if m.pairings[""] {
+					continue
+				}
+				id = refctl.NewIdentity("", "c20-empty") // a controller whose pairing identifier is the empty string
+			}
 			m.nextCtl++
 			k, err := b.Dial()
 			if err != nil {
@@ -470,6 +488,19 @@ func c20Histories(c *fw.Ctx) {
 			}
 		}
 	}
+	// a second, smaller alphabet: a controller with the empty pairing identifier, and a restart after the version files
+	// were lost — every history of length 3
+	small := []string{"restart:same", "restart:values", "pair-empty-id", "remove-pairing", "restart:lost-version-files"}
+	for _, e1 := range small {
+		for _, e2 := range small {
+			for _, e3 := range small {
+				idx++
+				if idx%hs == c.Shard%hs {
+					mine = append(mine, []string{e1, e2, e3})
+				}
+			}
+		}
+	}
 	if len(mine) > 1 {
 		c.Sample(mine[0])
 		c.Sample(mine[len(mine)/2])
@@ -501,7 +532,7 @@ func init() {
 	fw.Register(&fw.Check{
 		ID:    "C20",
 		Level: "model_checking",
-		Rule:  "(a) every history of length 3 (quick) / 4 (thorough) after an initial start over {restart with the same accessories, restart with changed values only, restart with an added accessory, restart with another setup code, real pair-setup of a new controller, remove a pairing, add a new pairing and add an existing pairing again through /pairings on a verified connection, application value changes} on one storage directory with the real transport; after EVERY event the advertised TXT records and the store are compared with the reference model: device id and long-term key constant (a stored controller still verifies against the original accessory key), pairings = model set, c# +1 exactly when the structure differs from the previous run, sf=1 ⇔ no controller pairing. plus a sweep over 240 structurally different accessory sets (restart same ⇒ c# unchanged, other ⇒ +1, again ⇒ unchanged). (b) ALL 10^8 eight-digit codes and all ≈12 million strings of length ≤9 over {0,9,a,-,space,non-ASCII digit}: ValidatePin accepts exactly the non-trivial eight-digit codes and formats XXX-XX-XXX; for all 10^8 codes (category 5, IP flag) and for all 256 categories × 16 flag sets × 7 setup ids × 7 boundary codes an independent base-36 decoder recovers code, category, flags and setup id from XHMURI. states = restart histories executed The alphabet also has the removal of a pairing that is not stored; every history of length 2 over four symbols is repeated in storage directories named 'Lamp [1]', 'Bridge [attic' and 'a*b?'. Plus, in a subprocess built with a scheduling point before EVERY statement of hc's packages (textual insertion through go build -overlay): every interleaving with at most 1 (thorough 2) preemptions of pairs of operations on disjoint objects — and, where the property is about served requests, of pairs of handlers on two verified connections of one accessory touching different characteristics — each side must observe exactly what it observes when the two run one after the other (module-level mutable state is what makes them differ).",
+		Rule:  "(a) every history of length 3 (quick) / 4 (thorough) after an initial start over {restart with the same accessories, restart with changed values only, restart with an added accessory, restart with another setup code, real pair-setup of a new controller, remove a pairing, add a new pairing and add an existing pairing again through /pairings on a verified connection, application value changes} on one storage directory with the real transport; after EVERY event the advertised TXT records and the store are compared with the reference model: device id and long-term key constant (a stored controller still verifies against the original accessory key), pairings = model set, c# +1 exactly when the structure differs from the previous run, sf=1 ⇔ no controller pairing. plus a sweep over 240 structurally different accessory sets (restart same ⇒ c# unchanged, other ⇒ +1, again ⇒ unchanged). (b) ALL 10^8 eight-digit codes and all ≈12 million strings of length ≤9 over {0,9,a,-,space,non-ASCII digit}: ValidatePin accepts exactly the non-trivial eight-digit codes and formats XXX-XX-XXX; for all 10^8 codes (category 5, IP flag) and for all 256 categories × 16 flag sets × 7 setup ids × 7 boundary codes an independent base-36 decoder recovers code, category, flags and setup id from XHMURI. states = restart histories executed The alphabet also has the removal of a pairing that is not stored; the value-only restart gives a first value to a readable characteristic that had none; every history of length 3 over {restart same, restart with other values, pair-setup of a controller whose identifier is the empty string, remove pairing, restart after the files 'version' and 'configHash' were lost (configuration number then not judged)}; every history of length 2 over four symbols is repeated in storage directories named 'Lamp [1]', 'Bridge [attic' and 'a*b?'. Plus, in a subprocess built with a scheduling point before EVERY statement of hc's packages (textual insertion through go build -overlay): every interleaving with at most 1 (thorough 2) preemptions of pairs of operations on disjoint objects — and, where the property is about served requests, of pairs of handlers on two verified connections of one accessory touching different characteristics — each side must observe exactly what it observes when the two run one after the other (module-level mutable state is what makes them differ).",
 		Run:   c20Run,
 		Replay: func(c *fw.Ctx, raw json.RawMessage) {
 			var cc c20CodeCase
